@@ -461,10 +461,13 @@ MonStep(Hh, B, T, e) ==
   \cup (IF Has("C04") THEN (IF upd /\ "num" \in DOMAIN e THEN C04_Update(B, T, e.v, e.num, e.out)
                             ELSE IF e.ev = "update" THEN {} ELSE C04_Frame(B, T)) ELSE {})
   \cup (IF Has("C05") /\ upd /\ "num" \in DOMAIN e THEN C05_Exact(T, e.v, e.num) ELSE {})
+     \* "priced at that station's tariff ... at that time": the price in the state is the tariff table's price in force
+  \cup (IF Has("C05") /\ e.ev = "pre" /\ e.fn = "ChargingPriceUpdate"
+        THEN {V("C05", "tariff_in_force", x[3], x[4]) : x \in C11_Prices(Hh, T)} ELSE {})
   \cup (IF Has("C05") THEN (IF upd THEN C05_Update(B, T, e.v, SumOver(Hh.value, PickedNow(B, T, e), LAMBDA r : Hh.value[r]))
                             ELSE IF e.ev = "update" THEN {} ELSE C05_Frame(B, T)) ELSE {})
   \cup (IF Has("C06") THEN (IF upd THEN C06_Move(B, T, e.v, Hh.dt, IF "num" \in DOMAIN e /\ "rt_now" \in DOMAIN e.num THEN e.num.rt_now ELSE <<>>) \cup C06_Frame(B, T, TRUE, e.v) \cup C06_Arrived(T, Hn.arrived, e.v)
-                                       \cup (IF "num" \in DOMAIN e THEN C06_Odo(B, T, e.v, e.num) ELSE {})
+                                       \cup (IF "num" \in DOMAIN e THEN C06_Odo(B, T, e.v, e.num) \cup C06_Geo(B, e.v, e.num) ELSE {})
                             ELSE C06_Frame(B, T, FALSE, "")) ELSE {})
   \cup (IF Has("C15") THEN C15_Step(B, T, e.ev, Hh.dtc) ELSE {})
   \cup (IF Has("C11") THEN C11_Step(Hh, B, T, e) ELSE {})
